@@ -1,6 +1,7 @@
 package parser
 
 import (
+	"io"
 	"strings"
 
 	"github.com/freeconf/yang/meta"
@@ -76,6 +77,12 @@ var c11L2Exprs = []struct {
 	{"a and (b or c) or d", func(a, b, c, d bool) bool { return a && (b || c) || d }},
 	{"not a or b and c", func(a, b, c, d bool) bool { return !a || b && c }},
 	{"not a and b", func(a, b, c, d bool) bool { return !a && b }}, // false when every feature is on
+	// the same grammar under every separator RFC 7950 allows (sep = space / tab / line break) and with prefixed names
+	{"a\tand\t(b\tor\tc)\tor\td", func(a, b, c, d bool) bool { return a && (b || c) || d }},
+	{"a and\n      (b or c)\n      or d", func(a, b, c, d bool) bool { return a && (b || c) || d }},
+	{"  ( a and ( b or c ) )  or  d ", func(a, b, c, d bool) bool { return a && (b || c) || d }},
+	{"m:a and (m:b or c) or m:d", func(a, b, c, d bool) bool { return a && (b || c) || d }},
+	{"not m:a or b and m:c", func(a, b, c, d bool) bool { return !a || b && c }},
 }
 
 func c11Guard(kind c11Kind) {
@@ -120,7 +127,7 @@ func H_C11_guard_anydata()   { c11Guard(c11Kinds[9]) }
 
 // a malformed expression is an error under every feature configuration (also all-on / default options)
 func H_C11_guard_malformed() {
-	bad := []string{"a and", "(a", "a b", "not", "a or or b"}
+	bad := []string{"a and", "(a", "a b", "not", "a or or b", "!a", "a&&b", "a,b", "a|b", "a or\tor b", "(a))", "a:", ":a", "m:", "nosuchprefix:a", "a and 1b", "a or b)", "()", "not (", "a AND b", "a;b"}
 	e := bad[vpChoose(len(bad))]
 	text := c11Head + `leaf x { if-feature "` + e + `"; type string; }` + "\n}"
 	var opts Options
@@ -134,6 +141,74 @@ func H_C11_guard_malformed() {
 		opts.Features = meta.FeaturesOff([]string{"a"})
 	}
 	_, err := LoadModuleFromStringWithOptions(nil, text, opts)
-	vpAssert(err != nil, "a malformed if-feature expression is an error, whatever the feature configuration")
+	vpAssertK("C11-malformed-token", true, err != nil, "a malformed if-feature expression ("+strings.ReplaceAll(e, "\t", "<TAB>")+") is an error, whatever the feature configuration")
+	vpCover("reached")
+}
+
+// a malformed expression is an error wherever it stands: second if-feature of a node whose first one is false,
+// on a node inside a guarded-off container, on a case, uses, augment, refine
+func H_C11_guard_malformed_anywhere() {
+	bodies := []string{
+		`leaf x { if-feature "not a"; if-feature "a and"; type string; }`,
+		`leaf x { if-feature "a and"; if-feature "not a"; type string; }`,
+		`container off { if-feature "not a"; leaf x { if-feature "(a"; type string; } }`,
+		`choice ch { case x { if-feature "a or"; leaf y { type string; } } }`,
+		`container u { uses g { if-feature "a b"; } }`,
+		`augment "/base" { if-feature "or a"; leaf x { type string; } }`,
+		`container u { uses g { refine gl { if-feature "a and and b"; description "r"; } } }`,
+		`leaf-list x { if-feature ")"; type string; }`,
+	}
+	text := c11Head + bodies[vpChoose(len(bodies))] + "\n}"
+	var opts Options
+	if vpBool() {
+		opts.Features = meta.FeaturesOff([]string{"b"})
+	}
+	_, err := LoadModuleFromStringWithOptions(nil, text, opts)
+	vpAssertK("C11-malformed-skipped", true, err != nil, "a malformed if-feature expression is an error wherever it stands")
+	vpCover("reached")
+}
+
+// features declared in a submodule or in an imported module
+func c11FeatOpener(name string, ext string) (io.Reader, error) {
+	switch name {
+	case "sub":
+		return strings.NewReader(`submodule sub { belongs-to m { prefix m; } feature sf; leaf plain { type string; } leaf sl { if-feature sf; type string; } }`), nil
+	case "other":
+		return strings.NewReader(`module other { namespace "urn:o"; prefix o; feature of; leaf ol { if-feature of; type string; } }`), nil
+	}
+	return nil, nil
+}
+
+func H_C11_guard_foreign_features() {
+	text := `module m { namespace "urn:m"; prefix m; revision 2020-01-01; include sub; import other { prefix o; } feature a;
+		leaf l { if-feature sf; type string; } leaf l2 { if-feature "m:sf and a"; type string; } leaf l3 { if-feature "o:of"; type string; } leaf l4 { if-feature "not o:of or a"; type string; } leaf keep { type string; } }`
+	cfg := vpChoose(6)
+	var fs meta.FeatureSet
+	sf, a, of := true, true, true
+	switch cfg {
+	case 0: // default options
+	case 1:
+		fs = meta.AllFeaturesOn()
+	case 2:
+		fs = meta.FeaturesOn([]string{"sf"})
+		a, of = false, false
+	case 3:
+		fs = meta.FeaturesOff([]string{"sf"})
+		sf = false
+	case 4:
+		fs = meta.FeaturesOn([]string{"sf", "a", "of"})
+	case 5:
+		fs = meta.FeaturesOff([]string{"of"})
+		of = false
+	}
+	m, err := LoadModuleFromStringWithOptions(c11FeatOpener, text, Options{Features: fs})
+	vpAssert(err == nil, "module loads")
+	if err != nil {
+		return
+	}
+	vpAssert(c11Has(m, "keep") && c11Has(m, "plain"), "unguarded definitions of module and submodule are present")
+	vpAssertK("C11-submodule-feature", true, c11Has(m, "l") == sf && c11Has(m, "sl") == sf, "a node guarded by a feature declared in a submodule is present exactly when that feature is enabled")
+	vpAssertK("C11-prefixed-feature", true, c11Has(m, "l2") == (sf && a), "a feature name with the module's own prefix names the same feature")
+	vpAssertK("C11-prefixed-feature", true, c11Has(m, "l3") == of && c11Has(m, "l4") == (!of || a), "a feature name with an import's prefix names the imported module's feature")
 	vpCover("reached")
 }
